@@ -126,7 +126,7 @@ func NewPool(n int, args ...string) *Pool {
 	if n <= 0 {
 		n = runtime.NumCPU()
 	}
-	return &Pool{N: n, Args: args, Timeout: 120 * time.Second}
+	return &Pool{N: n, Args: args, Timeout: 90 * time.Second}
 }
 
 func (p *Pool) spawn() (*worker, error) {
